@@ -74,36 +74,43 @@ pub fn call_ext_to_msg<A: DecoderArithmetic>(a: &A, x: f64) -> f64 where A::VarL
 macro_rules! with_arith {
     ($name:expr, $a:ident => $body:expr) => {
         match $name {
-            "Phif64" => { let mut $a = Phif64::new(); $body }
-            "Phif32" => { let mut $a = Phif32::new(); $body }
-            "Tanhf64" => { let mut $a = Tanhf64::new(); $body }
-            "Tanhf32" => { let mut $a = Tanhf32::new(); $body }
-            "Minstarapproxf64" => { let mut $a = Minstarapproxf64::new(); $body }
-            "Minstarapproxf32" => { let mut $a = Minstarapproxf32::new(); $body }
-            "Minstarapproxi8" => { let mut $a = Minstarapproxi8::new(); $body }
-            "Minstarapproxi8Jones" => { let mut $a = Minstarapproxi8Jones::new(); $body }
-            "Minstarapproxi8PartialHardLimit" => { let mut $a = Minstarapproxi8PartialHardLimit::new(); $body }
-            "Minstarapproxi8JonesPartialHardLimit" => { let mut $a = Minstarapproxi8JonesPartialHardLimit::new(); $body }
-            "Minstarapproxi8Deg1Clip" => { let mut $a = Minstarapproxi8Deg1Clip::new(); $body }
-            "Minstarapproxi8JonesDeg1Clip" => { let mut $a = Minstarapproxi8JonesDeg1Clip::new(); $body }
-            "Minstarapproxi8PartialHardLimitDeg1Clip" => { let mut $a = Minstarapproxi8PartialHardLimitDeg1Clip::new(); $body }
-            "Minstarapproxi8JonesPartialHardLimitDeg1Clip" => { let mut $a = Minstarapproxi8JonesPartialHardLimitDeg1Clip::new(); $body }
-            "Aminstarf64" => { let mut $a = Aminstarf64::new(); $body }
-            "Aminstarf32" => { let mut $a = Aminstarf32::new(); $body }
-            "Aminstari8" => { let mut $a = Aminstari8::new(); $body }
-            "Aminstari8Jones" => { let mut $a = Aminstari8Jones::new(); $body }
-            "Aminstari8PartialHardLimit" => { let mut $a = Aminstari8PartialHardLimit::new(); $body }
-            "Aminstari8JonesPartialHardLimit" => { let mut $a = Aminstari8JonesPartialHardLimit::new(); $body }
-            "Aminstari8Deg1Clip" => { let mut $a = Aminstari8Deg1Clip::new(); $body }
-            "Aminstari8JonesDeg1Clip" => { let mut $a = Aminstari8JonesDeg1Clip::new(); $body }
-            "Aminstari8PartialHardLimitDeg1Clip" => { let mut $a = Aminstari8PartialHardLimitDeg1Clip::new(); $body }
-            "Aminstari8JonesPartialHardLimitDeg1Clip" => { let mut $a = Aminstari8JonesPartialHardLimitDeg1Clip::new(); $body }
+            "Phif64" => { let mut $a = if crate::arith::use_default_ctor() { <Phif64 as Default>::default() } else { Phif64::new() }; $body }
+            "Phif32" => { let mut $a = if crate::arith::use_default_ctor() { <Phif32 as Default>::default() } else { Phif32::new() }; $body }
+            "Tanhf64" => { let mut $a = if crate::arith::use_default_ctor() { <Tanhf64 as Default>::default() } else { Tanhf64::new() }; $body }
+            "Tanhf32" => { let mut $a = if crate::arith::use_default_ctor() { <Tanhf32 as Default>::default() } else { Tanhf32::new() }; $body }
+            "Minstarapproxf64" => { let mut $a = if crate::arith::use_default_ctor() { <Minstarapproxf64 as Default>::default() } else { Minstarapproxf64::new() }; $body }
+            "Minstarapproxf32" => { let mut $a = if crate::arith::use_default_ctor() { <Minstarapproxf32 as Default>::default() } else { Minstarapproxf32::new() }; $body }
+            "Minstarapproxi8" => { let mut $a = if crate::arith::use_default_ctor() { <Minstarapproxi8 as Default>::default() } else { Minstarapproxi8::new() }; $body }
+            "Minstarapproxi8Jones" => { let mut $a = if crate::arith::use_default_ctor() { <Minstarapproxi8Jones as Default>::default() } else { Minstarapproxi8Jones::new() }; $body }
+            "Minstarapproxi8PartialHardLimit" => { let mut $a = if crate::arith::use_default_ctor() { <Minstarapproxi8PartialHardLimit as Default>::default() } else { Minstarapproxi8PartialHardLimit::new() }; $body }
+            "Minstarapproxi8JonesPartialHardLimit" => { let mut $a = if crate::arith::use_default_ctor() { <Minstarapproxi8JonesPartialHardLimit as Default>::default() } else { Minstarapproxi8JonesPartialHardLimit::new() }; $body }
+            "Minstarapproxi8Deg1Clip" => { let mut $a = if crate::arith::use_default_ctor() { <Minstarapproxi8Deg1Clip as Default>::default() } else { Minstarapproxi8Deg1Clip::new() }; $body }
+            "Minstarapproxi8JonesDeg1Clip" => { let mut $a = if crate::arith::use_default_ctor() { <Minstarapproxi8JonesDeg1Clip as Default>::default() } else { Minstarapproxi8JonesDeg1Clip::new() }; $body }
+            "Minstarapproxi8PartialHardLimitDeg1Clip" => { let mut $a = if crate::arith::use_default_ctor() { <Minstarapproxi8PartialHardLimitDeg1Clip as Default>::default() } else { Minstarapproxi8PartialHardLimitDeg1Clip::new() }; $body }
+            "Minstarapproxi8JonesPartialHardLimitDeg1Clip" => { let mut $a = if crate::arith::use_default_ctor() { <Minstarapproxi8JonesPartialHardLimitDeg1Clip as Default>::default() } else { Minstarapproxi8JonesPartialHardLimitDeg1Clip::new() }; $body }
+            "Aminstarf64" => { let mut $a = if crate::arith::use_default_ctor() { <Aminstarf64 as Default>::default() } else { Aminstarf64::new() }; $body }
+            "Aminstarf32" => { let mut $a = if crate::arith::use_default_ctor() { <Aminstarf32 as Default>::default() } else { Aminstarf32::new() }; $body }
+            "Aminstari8" => { let mut $a = if crate::arith::use_default_ctor() { <Aminstari8 as Default>::default() } else { Aminstari8::new() }; $body }
+            "Aminstari8Jones" => { let mut $a = if crate::arith::use_default_ctor() { <Aminstari8Jones as Default>::default() } else { Aminstari8Jones::new() }; $body }
+            "Aminstari8PartialHardLimit" => { let mut $a = if crate::arith::use_default_ctor() { <Aminstari8PartialHardLimit as Default>::default() } else { Aminstari8PartialHardLimit::new() }; $body }
+            "Aminstari8JonesPartialHardLimit" => { let mut $a = if crate::arith::use_default_ctor() { <Aminstari8JonesPartialHardLimit as Default>::default() } else { Aminstari8JonesPartialHardLimit::new() }; $body }
+            "Aminstari8Deg1Clip" => { let mut $a = if crate::arith::use_default_ctor() { <Aminstari8Deg1Clip as Default>::default() } else { Aminstari8Deg1Clip::new() }; $body }
+            "Aminstari8JonesDeg1Clip" => { let mut $a = if crate::arith::use_default_ctor() { <Aminstari8JonesDeg1Clip as Default>::default() } else { Aminstari8JonesDeg1Clip::new() }; $body }
+            "Aminstari8PartialHardLimitDeg1Clip" => { let mut $a = if crate::arith::use_default_ctor() { <Aminstari8PartialHardLimitDeg1Clip as Default>::default() } else { Aminstari8PartialHardLimitDeg1Clip::new() }; $body }
+            "Aminstari8JonesPartialHardLimitDeg1Clip" => { let mut $a = if crate::arith::use_default_ctor() { <Aminstari8JonesPartialHardLimitDeg1Clip as Default>::default() } else { Aminstari8JonesPartialHardLimitDeg1Clip::new() }; $body }
             other => panic!("vh: unknown arithmetic {other}"),
         }
     };
 }
 
 pub fn is_i8(name: &str) -> bool { name.contains("i8") }
+
+/// every other arithmetic object is built with `Default::default()` instead of `new()`: both are public constructors
+pub fn use_default_ctor() -> bool {
+    use std::sync::atomic::{AtomicUsize, Ordering};
+    static N: AtomicUsize = AtomicUsize::new(0);
+    N.fetch_add(1, Ordering::Relaxed) % 2 == 1
+}
 pub fn is_f32(name: &str) -> bool { name.ends_with("f32") }
 pub fn kind(name: &str) -> &'static str {
     if name.starts_with("Phi") { "phi" } else if name.starts_with("Tanh") { "tanh" }
